@@ -359,6 +359,13 @@ def parseOutcome (s : String) : Option Outcome :=
   | ['e'] => some .err
   | ['p'] => some .panic
   | 's' :: r => (String.ofList r).toNat?.map .ok
+  | 't' :: r =>       -- t<pre>-<post>: pass-through of the consumed message between pre / post fresh ones
+    match (String.ofList r).splitOn "-" with
+    | [a, b] => do
+      let a ← a.toNat?
+      let b ← b.toNat?
+      pure (.pass a b)
+    | _ => none
   | _ => none
 
 structure RtReq where
@@ -646,7 +653,7 @@ def monitorRt (q : RtReq) (obs : String) : String := Id.run do
   let calls := splitOr pubS ";"
   let pOk := (calls.filter (·.startsWith "ok:")).length
   let pErr := (calls.filter (·.startsWith "e:inner:")).length
-  let hOk := (q.outs.filter (fun o => match o with | .ok _ => true | _ => false)).length
+  let hOk := (q.outs.filter (fun o => match o with | .ok _ => true | .pass _ _ => true | _ => false)).length
   if inv ≠ q.outs.length then return "violated:handler_invocations"
   if q.kp > 0 then
     if metricCount ms "pub" lblTrue ≠ pOk ∨ metricCount ms "pub" lblFalse ≠ pErr ∨ famTotal ms "pub" ≠ calls.length then
@@ -666,6 +673,79 @@ def monitorRt (q : RtReq) (obs : String) : String := Id.run do
       return "violated:metrics_handler_once"
   return "ok"
 
+/-! ### chain: a message received through a subscriber stack is handed, same object, to a publisher stack -/
+
+structure ChReq where
+  subStack : List LSpec
+  pubStack : List LSpec
+  script : List Bool
+  n : Nat
+  sub : String
+  pub : String
+
+def parseChReq (f : List String) (rec : List String) : Option ChReq :=
+  match f with
+  | [ss, ps, sc, n] => do
+    let ss ← parseStack ss
+    let ps ← parseStack ps
+    let sc ← parseBits sc
+    let n ← n.toNat?
+    let sub ← (recGet rec "sub").bind hexStr?
+    let pub ← (recGet rec "pub").bind hexStr?
+    let noD := fun (l : LSpec) => match l with | .D _ _ => false | _ => true
+    if ss.all noD ∧ ps.all noD then pure ⟨ss, ps, sc, n, sub, pub⟩ else none
+  | _ => none
+
+def modelCh (q : ChReq) : String := Id.run do
+  let some subStack := mkSubStack q.subStack | return "bad-op"
+  let pubStack := mkPubStack [] 0 0 q.pubStack
+  let mut w : PWorld := { script := q.script }
+  let mut ws : List Watcher := []
+  let mut res : List String := []
+  let mut pOk := 0
+  let mut pErr := 0
+  for i in List.range q.n do
+    let d := deliver q.sub subStack { id := i, md := [("k", .raw "v")] }
+    ws := ws ++ d.2
+    let (e, _, w') := publish q.pub pubStack "topic0" [d.1] w
+    w := w'
+    res := res ++ [errTok e]
+    if e.isNone then pOk := pOk + 1 else pErr := pErr + 1
+  let probe := if hasM q.pubStack then s!"{pOk}/{pErr}/0/0" else "-"
+  let keys := w.obs.map pubKey ++ (subCounts (fun _ => .ack) ws).map subKey
+  return s!"{sepOr res ";"}|probe={probe}|metrics={countLines keys}|recv={q.n}"
+
+def monitorCh (q : ChReq) (obs : String) : String := Id.run do
+  let secs := obs.splitOn "|"
+  let some ress := secs.head? | return "bad-op"
+  let some probeS := section? secs "probe" | return "bad-op"
+  let some metricsS := section? secs "metrics" | return "bad-op"
+  let some recvS := section? secs "recv" | return "bad-op"
+  if secs.length ≠ 4 then return "violated:liveness"
+  if recvS ≠ toString q.n then return "violated:every_message_once"
+  let ress := splitOr ress ";"
+  if ress.length ≠ q.n then return "violated:result_per_call"
+  for (i, r) in (List.range ress.length).zip ress do
+    if r ≠ (if q.script.getD i false then "e:inner" else "ok") then return "violated:inner_result_passes"
+  let some ms := parseMetrics metricsS | return "bad-op"
+  if ms.any (fun m => m.1 ≠ "pub" ∧ m.1 ≠ "sub") then return "violated:metrics_foreign_series"
+  -- every Publish call that entered the metrics publisher decorator is counted once – a message that was only
+  -- RECEIVED through a metrics subscriber decorator has not been published before
+  if hasM q.pubStack then
+    match probeS.splitOn "/" with
+    | [a, b, _, _] =>
+      let some a := a.toNat? | return "bad-op"
+      let some b := b.toNat? | return "bad-op"
+      if a + b ≠ q.n then return "violated:batch_one_call"
+      if metricCount ms "pub" lblTrue ≠ a ∨ metricCount ms "pub" lblFalse ≠ b ∨ famTotal ms "pub" ≠ a + b then
+        return "violated:metrics_publish_once"
+    | _ => return "bad-op"
+  else if famTotal ms "pub" ≠ 0 then return "violated:metrics_foreign_series"
+  if hasM q.subStack then
+    if metricCount ms "sub" lblAcked ≠ q.n ∨ famTotal ms "sub" ≠ q.n then return "violated:metrics_subscribe_once"
+  else if famTotal ms "sub" ≠ 0 then return "violated:metrics_foreign_series"
+  return "ok"
+
 def splitRec (toks : List String) : List String × List String :=
   (toks.takeWhile (· ≠ "@"), (toks.dropWhile (· ≠ "@")).drop 1)
 
@@ -677,6 +757,7 @@ def handle (line : String) : String :=
     | "pub" => match parsePubReq f rec with | some q => modelPub q | none => "bad-op"
     | "sub" => match parseSubReq f rec with | some q => modelSub q | none => "bad-op"
     | "rt" => match parseRtReq f rec with | some q => modelRt q | none => "bad-op"
+    | "ch" => match parseChReq f rec with | some q => modelCh q | none => "bad-op"
     | _ => "bad-op"
   | "P" :: kind :: rest =>
     let req := rest.takeWhile (· ≠ "##")
@@ -687,6 +768,7 @@ def handle (line : String) : String :=
       | "pub" => match parsePubReq f rec with | some q => monitorPub q obs | none => "bad-op"
       | "sub" => match parseSubReq f rec with | some q => monitorSub q obs | none => "bad-op"
       | "rt" => match parseRtReq f rec with | some q => monitorRt q obs | none => "bad-op"
+      | "ch" => match parseChReq f rec with | some q => monitorCh q obs | none => "bad-op"
       | _ => "bad-op"
     | _ => "bad-op"
   | _ => "bad-op"
